@@ -4,7 +4,7 @@ import random
 
 
 class Inst:
-    def __init__(self, name, module, pkg, body, unwind, desc, core=True, timeout=600, cost=1.0, attrs=(), features=(), require_opt=()):
+    def __init__(self, name, module, pkg, body, unwind, desc, core=True, timeout=600, cost=1.0, attrs=(), features=(), require_opt=(), unwindset=()):
         self.name = name
         self.module = module  # harness module (file) the instance lives in
         self.pkg = pkg  # cargo package passed to `cargo kani -p`
@@ -17,6 +17,7 @@ class Inst:
         self.attrs = list(attrs)
         self.features = list(features)
         self.require_opt = set(require_opt)
+        self.unwindset = list(unwindset)
         self.modpath = None
 
     def full_name(self):
@@ -123,5 +124,477 @@ PROPS["C01"] = Prop(
         ("not below 4^k", "code-out-of-range"),
         ("not a valid window", "spurious-item"),
         ("yields again after", "not-fused"),
+    ],
+)
+
+
+# ---------------------------------------------------------------------------
+# C09
+def c09_inst(w, m, n, length=None, core=True, timeout=900):
+    r = n - w + 3 if n >= w else 3
+    unw = n + 2
+    if length is None:
+        name = "c09_w%d_m%d_n%d_sym" % (w, m, n)
+        body = "c09_symlen::<%d, %d, %d, %d>()" % (w, m, n, r)
+        ld = "symbolic 0..=%d" % n
+        nn = n
+    else:
+        name = "c09_w%d_m%d_l%d" % (w, m, length)
+        r = length - w + 3 if length >= w else 3
+        body = "c09_fixed::<%d, %d, %d, %d>()" % (w, m, length, r)
+        ld = str(length)
+        nn = length
+        unw = length + 2
+    unw = max(unw, w + 2, r + 1)
+    return Inst(name, "verif_c09", "kmer", body, unw, {"w": w, "m": m, "len": ld, "bytes": "symbolic 0x04..=0xFF"},
+                core=core, timeout=timeout, cost=float(nn * (w - m + 2)),
+                unwindset=[("kmer/src/minimiser.rs", r"for\s+\w+\s+in\s+0\.\.self\.buff\.len\(\)", w - m + 3)])
+
+
+def c09_instances(tier, seed):
+    out = []
+    quick = [(1, 1), (2, 1), (2, 2), (3, 2), (3, 3), (4, 2), (5, 3)]
+    for (w, m) in quick:
+        for length in range(0, w + 4):
+            out.append(c09_inst(w, m, w + 3, length))
+    if tier == "thorough":
+        for (w, m) in [(4, 1), (6, 3), (6, 5), (8, 5)]:
+            for length in range(0, w + 3):
+                out.append(c09_inst(w, m, w + 2, length, core=False, timeout=3600))
+        for (w, m) in [(31, 31), (32, 31)]:
+            for length in (m - 1, w - 1, w, w + 1):
+                out.append(c09_inst(w, m, w + 1, length, core=False, timeout=3600))
+    return out
+
+
+PROPS["C09"] = Prop(
+    "C09",
+    modules=[Module("kmer", "verif_c09", "harness/kmer/verif_c09.rs")],
+    functions=["kmer::minimiser::MinimiserGenerator::new", "<kmer::minimiser::MinimiserGenerator as Iterator>::next", "kmer::minimiser::SEQ_NT4_TABLE"],
+    assumptions=COMMON_ASSUME + [
+        "std::collections::VecDeque is replaced under cfg(kani) by a fixed-capacity queue model (shim/containers.rs); exceeding its capacity is a reported failure; native replays use the std VecDeque",
+    ],
+    outside=["sequences longer than the instance length", "(w,m) pairs not in the bound table", "pybindings wrapper (see C13)"],
+    instances=c09_instances,
+    shims=["vecdeque"],
+    roles=[
+        ("not reported (iterator ended early)", "run-missing"),
+        ("not the minimiser of the run", "wrong-minimiser"),
+        ("reported start", "wrong-start"),
+        ("reported end", "wrong-end"),
+        ("corresponds to no run", "spurious-item"),
+    ],
+)
+
+
+# ---------------------------------------------------------------------------
+# C18
+BUFF_LOOP = r"for\s+\w+\s+in\s+0\.\.self\.buff\.len\(\)"
+
+
+def c18_inst(w, m, length, core=True, timeout=1200):
+    r = length - w + 3 if length >= w else 3
+    unw = max(length + 2, w + 2, r + 1)
+    return Inst(
+        "c18_w%d_m%d_l%d" % (w, m, length), "verif_c18", "kmer", "c18_fixed::<%d, %d, %d, %d>()" % (w, m, length, r), unw,
+        {"w": w, "m": m, "len": str(length), "bytes": "symbolic 0x04..=0xFF"}, core=core, timeout=timeout,
+        cost=float(length * (w - m + 2)),
+        unwindset=[("kmer/src/minimiser.rs", BUFF_LOOP, w - m + 3), ("kmer/src/kmer_minimisers.rs", BUFF_LOOP, w - m + 3)],
+    )
+
+
+def c18_instances(tier, seed):
+    out = []
+    for (w, m) in [(2, 1), (3, 2), (3, 3), (4, 2)]:
+        for length in range(0, w + 4):
+            out.append(c18_inst(w, m, length))
+    if tier == "thorough":
+        for length in range(0, 5 + 4):
+            out.append(c18_inst(5, 3, length, core=False, timeout=3600))
+        for length in (30, 31, 32):
+            out.append(c18_inst(31, 31, length, core=False, timeout=3600))
+    return out
+
+
+PROPS["C18"] = Prop(
+    "C18",
+    modules=[Module("kmer", "verif_c18", "harness/kmer/verif_c18.rs")],
+    functions=[
+        "kmer::kmer_minimisers::KmerMinimiserGenerator::new", "<kmer::kmer_minimisers::KmerMinimiserGenerator as Iterator>::next",
+        "kmer::minimiser::MinimiserGenerator::{new,next}", "kmer::kmer::KmerGenerator::{new,next}",
+    ],
+    assumptions=COMMON_ASSUME + [
+        "std::collections::VecDeque is replaced under cfg(kani) by a fixed-capacity ring model (shim/containers.rs); native replays use the std VecDeque",
+        "the Vec<Kmer> attached to each run is the real alloc::vec::Vec",
+    ],
+    outside=["sequences longer than the instance length", "(w,m) pairs not in the bound table"],
+    instances=c18_instances,
+    shims=["vecdeque"],
+    roles=[
+        ("minimiser of a run differs", "run-minimiser-differs"),
+        ("start of a run differs", "run-start-differs"),
+        ("end of a run differs", "run-end-differs"),
+        ("ends before the plain", "run-missing-vs-plain"),
+        ("does not have", "run-extra-vs-plain"),
+        ("w-mer is lost", "wmer-lost"),
+        ("not the canonical w-mers", "wmer-wrong"),
+        ("more k-mers attached", "wmer-extra"),
+        ("no w-mer of a valid window", "wmer-extra"),
+    ],
+)
+
+
+# ---------------------------------------------------------------------------
+# C02
+def c02_instances(tier, seed):
+    out = []
+    ks = list(range(1, 32)) if tier == "thorough" else sorted(set([1, 2, 3, 4, 7, 8, 15, 16, 30, 31] + rot(seed, range(5, 30), 3)))
+    for k in ks:
+        out.append(Inst("c02_revcomp_k%d" % k, "verif_c02", "kmer", "c02_revcomp::<%d>()" % k, k + 2,
+                        {"clause": "(a)+(b) rev_comp involution and text-level agreement", "k": k, "x": "symbolic, all codes < 4^k"},
+                        core=True, timeout=600, cost=float(k)))
+    dks = [1, 2] if tier == "quick" else [1, 2, 3]
+    for k in dks:
+        out.append(Inst("c02_decode_k%d" % k, "verif_c02", "kmer", "c02_decode::<%d>()" % k, k + 3,
+                        {"clause": "(c) numeric_to_kmer decode/re-encode", "k": k, "x": "symbolic, all codes < 4^k"},
+                        core=(k <= 2), timeout=900 if k <= 2 else 3000, cost=100.0 * k))
+    sks = [1, 2, 3, 4, 5, 8] if tier == "quick" else [1, 2, 3, 4, 5, 8, 15, 16, 31]
+    for k in sks:
+        n = k + 3
+        out.append(Inst("c02_stream_k%d_n%d" % (k, n), "verif_c02", "kmer", "c02_stream::<%d, %d, %d>()" % (k, n, n - k + 2), n + 2,
+                        {"clause": "(d) strand symmetry of the k-mer stream", "k": k, "max_len": n, "len": "symbolic 0..=%d" % n},
+                        core=(k <= 8), timeout=1200, cost=3.0 * n))
+    return out
+
+
+PROPS["C02"] = Prop(
+    "C02",
+    modules=[Module("kmer", "verif_c02", "harness/kmer/verif_c02.rs")],
+    functions=["kmer::kmer::KmerGenerator::rev_comp", "kmer::numeric_to_kmer", "kmer::kmer::KmerGenerator::{new,next}"],
+    assumptions=COMMON_ASSUME,
+    outside=[
+        "text decoding (numeric_to_kmer) of a SYMBOLIC code for k > 2 (k = 3 is attempted in the thorough tier and exceeded 12 GB when probed): String::push / chars().rev().collect() fork on every symbolic letter; larger k is decided only where the code is concrete (headers, C03)",
+        "stream symmetry for sequences longer than k+3",
+    ],
+    instances=c02_instances,
+    roles=[
+        ("not a k-mer code", "revcomp-out-of-range"),
+        ("differs from the code of the reverse-complemented text", "revcomp-wrong"),
+        ("twice does not return", "revcomp-not-involution"),
+        ("exactly k letters", "decode-length"),
+        ("outside ACGT", "decode-alphabet"),
+        ("does not give the code back", "decode-roundtrip"),
+        ("different numbers of k-mers", "stream-count"),
+        ("second component", "second-not-revcomp"),
+        ("reversed stream", "stream-not-mirrored"),
+        ("canonical k-mers differ", "canonical-differs"),
+        ("more k-mers than windows", "stream-count"),
+    ],
+)
+
+
+# ---------------------------------------------------------------------------
+# C03
+import importlib.util as _ilu
+import os as _os
+
+_spec = _ilu.spec_from_file_location("tables", _os.path.join(_os.path.dirname(_os.path.dirname(_os.path.abspath(__file__))), "harness/common/tables.py"))
+tables = _ilu.module_from_spec(_spec)
+_spec.loader.exec_module(tables)
+
+
+def table_ks(insts):
+    ks = set()
+    for i in insts:
+        for k in i.desc.get("tables", []):
+            ks.add(k)
+    return sorted(ks)
+
+
+def gen_tables(inj, insts):
+    ks = table_ks(insts)
+    if not ks:
+        return {"TABLES": ""}
+    tabs = tables.dump_tables(inj, ks)
+    inj.extra_evidence["tables_by_native_run_of_real_kmer_pos_maps"] = {str(k): {"count": tabs[k][0], "rank_entries": len(tabs[k][1])} for k in tabs}
+    return {"TABLES": tables.rust_tables(tabs)}
+
+
+def c03_instances(tier, seed):
+    out = []
+    for k in ((1,) if tier == "quick" else (1, 2)):
+        out.append(Inst("c03_insolver_k%d" % k, "verif_c03", "kmer", "c03_insolver::<%d>(&RANK_K%d, &INV_K%d, COUNT_K%d)" % (k, k, k, k), 4 ** k + 2,
+                        {"clause": "encoding validation: real kmer_pos_maps executed by the solver equals the native table", "k": k, "tables": [k]},
+                        core=(k == 1), timeout=1500, cost=300.0 * k))
+    tks = [1, 2, 3, 4, 5, 6] if tier == "quick" else [1, 2, 3, 4, 5, 6, 7, 8]
+    for k in tks:
+        out.append(Inst("c03_table_k%d" % k, "verif_c03", "kmer",
+                        "c03_table::<%d>(&RANK_K%d, &INV_K%d, COUNT_K%d, INVLEN_K%d)" % (k, k, k, k, k), k + 3,
+                        {"clause": "bijection; table by native run of the real kmer_pos_maps, quantified obligations by the solver", "k": k,
+                         "x,y": "symbolic, all codes < 4^k", "p": "symbolic column", "tables": [k]},
+                        core=(k <= 6), timeout=1500, cost=10.0 * k))
+    hks = [1, 2, 3] if tier == "quick" else [1, 2, 3, 4]
+    for k in hks:
+        for rev in (False, True):
+            sfx = "_rev" if rev else ""
+            out.append(Inst("c03_header_k%d%s" % (k, sfx), "verif_c03h", "composition", "c03_header::<%d>()" % k, 4 ** k + 2,
+                            {"clause": "CLI header names the canonical k-mers in column order", "k": k, "p": "symbolic column",
+                             "map_model_iteration": "reversed" if rev else "insertion order"},
+                            core=(k <= 3), timeout=1800, cost=40.0 * 4 ** k, features=(["kmer/verif_rev_iter"] if rev else [])))
+        out.append(Inst("c03_pyheader_k%d" % k, "verif_c03p", "pybindings", "c03_pyheader::<%d>()" % k, 4 ** k + 2,
+                        {"clause": "Python binding header names the canonical k-mers in column order", "k": k, "p": "symbolic column"},
+                        core=(k <= 3), timeout=1800, cost=40.0 * 4 ** k))
+    return out
+
+
+HASHMAP_NOTE = ("std HashMap/HashSet are replaced under cfg(kani) by association-list models (shim/containers.rs; RandomState needs a getrandom syscall Kani "
+                "cannot model); iteration order of the model = insertion order (and reversed where stated); native replays use the std containers")
+BIO_NOTE = "the `bio` crate is patched by a stand-in in Kani builds (it does not compile under kani-compiler); none of its code is executed by this check"
+
+PROPS["C03"] = Prop(
+    "C03",
+    modules=[
+        Module("kmer", "verif_c03", "harness/kmer/verif_c03.rs"),
+        Module("composition", "verif_c03h", "harness/composition/verif_c03h.rs", parent="oligo"),
+        Module("pybindings", "verif_c03p", "harness/pybindings/verif_c03p.rs", parent="oligo"),
+    ],
+    functions=[
+        "kmer::kmer::KmerGenerator::kmer_pos_maps", "kmer::kmer::KmerGenerator::rev_comp", "composition::oligo::OligoComputer::get_header (private)",
+        "pybindings::oligo::OligoComputer::{new,get_header}", "kmer::numeric_to_kmer",
+    ],
+    assumptions=COMMON_ASSUME + [HASHMAP_NOTE, BIO_NOTE,
+                                 "for k >= 4 the rank/inverse tables are produced by running the real kmer_pos_maps(k) natively on the snapshot (input-free function) and embedded as constants; the quantified obligations over them are decided by the solver"],
+    outside=["k = 9, 10 (tables of 2^18 / 2^20 entries)", "header for k > 3 (quick) / k > 4 (thorough)",
+             "the join of the header vector with the delimiter presets (sits behind file I/O)", "OligoCgrComputer::new (calls rayon::current_num_threads)"],
+    instances=c03_instances,
+    shims=["hashmap", "bio"],
+    generate=gen_tables,
+    roles=[
+        ("4^k entries", "rank-table-size"),
+        ("column count", "column-count"),
+        ("one entry per column", "inverse-size"),
+        ("canonical form differs", "canonical-form"),
+        ("not a column index", "rank-out-of-range"),
+        ("strictly increasing", "rank-order"),
+        ("function of the canonical code", "rank-order"),
+        ("not the inverse", "inverse-wrong"),
+        ("no k-mer (not surjective)", "not-surjective"),
+        ("not a k-mer code", "inverse-wrong"),
+        ("column k-mer is not canonical", "column-not-canonical"),
+        ("is not the column", "not-surjective"),
+        ("one name per canonical", "header-length"),
+        ("does not have k letters", "header-name"),
+        ("outside ACGT", "header-name"),
+        ("column order", "header-order"),
+    ],
+)
+
+
+# ---------------------------------------------------------------------------
+# C04
+def kcount_of(k):
+    return (4 ** k + 4 ** (k // 2)) // 2 if k % 2 == 0 else 4 ** k // 2
+
+
+def c04_instances(tier, seed):
+    out = []
+
+    def counts(k, n, norm, core=True, timeout=1500):
+        out.append(Inst("c04_%s_k%d_n%d" % ("norm" if norm else "raw", k, n), "verif_c04", "composition",
+                        "c04_counts::<%d, %d, %s>(&RANK_K%d, COUNT_K%d)" % (k, n, "true" if norm else "false", k, k), max(n + 2, 4 ** k + 2) if k <= 3 else n + 2,
+                        {"clause": "row = per-column window counts (%s)" % ("normalised" if norm else "raw"), "k": k, "max_len": n, "len": "symbolic 0..=%d" % n,
+                         "column": "symbolic", "tables": [k]}, core=core, timeout=timeout, cost=20.0 * n * (2 if norm else 1)))
+
+    def inv(k, n, mode, core=True, timeout=1500):
+        nm = ["revcomp", "case", "tu"][mode]
+        out.append(Inst("c04_inv_%s_k%d_n%d" % (nm, k, n), "verif_c04", "composition",
+                        "c04_invariance::<%d, %d, %d>(&RANK_K%d, COUNT_K%d)" % (k, n, mode, k, k), n + 2,
+                        {"clause": "row invariant under " + ["reverse complement", "letter case toggle", "U for T"][mode], "k": k, "max_len": n,
+                         "len": "symbolic 0..=%d" % n, "norm": "symbolic", "column": "symbolic", "tables": [k]}, core=core, timeout=timeout, cost=30.0 * n))
+
+    if tier == "quick":
+        for k, n in ((1, 4), (2, 5), (3, 5)):
+            counts(k, n, False)
+            counts(k, n, True)
+        for mode in (0, 1, 2):
+            inv(2, 5, mode)
+        inv(3, 5, 0)
+    else:
+        for k in (1, 2, 3):
+            for n in range(k + 3, 7):
+                counts(k, n, False, core=(n <= 5))
+                counts(k, n, True, core=(n <= 5))
+            for mode in (0, 1, 2):
+                inv(k, 6, mode, core=False)
+                inv(k, 5, mode)
+        for k in (4, 5, 6, 7):
+            counts(k, k + 1, False, core=False, timeout=3000)
+            counts(k, k + 1, True, core=False, timeout=3000)
+            inv(k, k + 1, 0, core=False, timeout=3000)
+    return out
+
+
+PROPS["C04"] = Prop(
+    "C04",
+    modules=[Module("composition", "verif_c04", "harness/composition/verif_c04.rs", parent="oligo")],
+    functions=["composition::oligo::OligoComputer::vectorise_one (private)", "kmer::kmer::KmerGenerator::{new,next}", "f64 normalisation (IEEE division)"],
+    assumptions=COMMON_ASSUME + [HASHMAP_NOTE, BIO_NOTE,
+                                 "pos_map is the rank table produced by a native run of the real kmer_pos_maps(k) on the snapshot (C03 decides that table)",
+                                 "the struct is built directly (OligoComputer::new calls rayon::current_num_threads, an FFI Kani cannot model)",
+                                 "'correct to 6 decimals' is discharged as bit-equality with the correctly rounded IEEE quotient count/total"],
+    outside=["the textual row (format!(\"{:.6}\") - float formatting is not executed)", "file/CLI plumbing, batching, threads", "records longer than max_len",
+             "k = 8", "the Python copy of this loop (C13)"],
+    instances=c04_instances,
+    shims=["hashmap", "bio"],
+    generate=gen_tables,
+    roles=[
+        ("one value per canonical", "row-length"),
+        ("column count is not", "row-length"),
+        ("normalised value", "normalised-value-wrong"),
+        ("not all-zero", "empty-record-row"),
+        ("raw value", "raw-count-wrong"),
+        ("differ in length", "row-length"),
+        ("row changes under", "not-invariant"),
+    ],
+)
+
+
+# ---------------------------------------------------------------------------
+# C11
+def c11_instances(tier, seed):
+    out = []
+    ns = [2, 3] if tier == "quick" else [2, 3, 4, 5, 6]
+    for n in ns:
+        out.append(Inst("c11_n%d" % n, "verif_c11", "composition", "c11_body::<%d>()" % n, n + 2,
+                        {"clause": "midpoint rule, containment, rejection", "max_len": n, "len": "symbolic 0..=%d" % n, "bytes": "symbolic 0x00..=0xFF",
+                         "square": "symbolic 1..=2^20"}, core=(n <= 4), timeout=1500 if n <= 3 else 3600, cost=30.0 * n * n,
+                        require_opt=[]))
+    pn = [3] if tier == "quick" else [3, 4, 5]
+    for n in pn:
+        out.append(Inst("c11_prefix_n%d" % n, "verif_c11", "composition", "c11_prefix::<%d>()" % n, n + 2,
+                        {"clause": "prefix determinism", "len": n, "bytes": "symbolic 0x00..=0xFF", "square": "symbolic 1..=2^20"},
+                        core=(n <= 3), timeout=1500 if n <= 3 else 3600, cost=40.0 * n * n))
+    return out
+
+
+PROPS["C11"] = Prop(
+    "C11",
+    modules=[Module("composition", "verif_c11", "harness/composition/verif_c11.rs", parent="cgr")],
+    functions=["composition::cgr::cgr_maps", "composition::cgr::CgrComputer::vectorise_one (private)"],
+    assumptions=[COMMON_ASSUME[0], COMMON_ASSUME[1], HASHMAP_NOTE, BIO_NOTE,
+                 "the struct is built directly from the real cgr_maps (CgrComputer::new calls rayon::current_num_threads)",
+                 "square sizes are integers 1..=2^20 converted to f64 (as the CLI does)"],
+    outside=["records longer than max_len (in particular lengths where the midpoints stop being exactly representable)",
+             "the batch/file path of CgrComputer::vectorise (I/O, rayon, {} float formatting)", "the Python copy (C13)"],
+    instances=c11_instances,
+    shims=["hashmap", "bio"],
+    roles=[
+        ("non-nucleotide byte", "bad-byte-accepted"),
+        ("one point per base", "point-count"),
+        ("not the midpoint", "not-midpoint"),
+        ("not exactly representable", "oracle-inexact"),
+        ("outside the square", "outside-square"),
+        ("outside the sub-square", "outside-subsquare"),
+        ("is rejected", "valid-record-rejected"),
+        ("prefix of an accepted", "prefix-rejected"),
+        ("different number of points", "point-count"),
+        ("depends on bases after", "not-prefix-determined"),
+    ],
+)
+
+
+# ---------------------------------------------------------------------------
+# C12
+def c12_instances(tier, seed):
+    out = []
+
+    def body(k, n, norm, core=True, timeout=1800):
+        out.append(Inst("c12_%s_k%d_n%d" % ("norm" if norm else "raw", k, n), "verif_c12", "composition",
+                        "c12_body::<%d, %d, %s>(&RANK_K%d, &INV_K%d, COUNT_K%d)" % (k, n, "true" if norm else "false", k, k, k),
+                        max(n + 2, 4 ** k + 2, kcount_of(k) + 2),
+                        {"clause": "(x,y) = CGR end point of the column's k-mer, f = oligo value (%s)" % ("normalised" if norm else "raw"), "k": k,
+                         "max_len": n, "len": "symbolic 0..=%d" % n, "square": "symbolic 1..=2^20", "column": "symbolic", "tables": [k]},
+                        core=core, timeout=timeout, cost=50.0 * n * k))
+
+    def rowindep(k, n, core=True, timeout=1800):
+        out.append(Inst("c12_rowindep_k%d_n%d" % (k, n), "verif_c12", "composition",
+                        "c12_rowindep::<%d, %d>(&RANK_K%d, &INV_K%d, COUNT_K%d)" % (k, n, k, k, k), max(n + 2, kcount_of(k) + 2),
+                        {"clause": "(x,y) of a column is the same in every row", "k": k, "len": n, "square": "symbolic 1..=2^20", "norm": "symbolic",
+                         "column": "symbolic", "tables": [k]}, core=core, timeout=timeout, cost=50.0 * n * k))
+
+    ks = [1, 2] if tier == "quick" else [1, 2, 3]
+    for k in ks:
+        n = k + 3
+        body(k, n, True, core=(k <= 2))
+        body(k, n, False, core=(k <= 2))
+        rowindep(k, k + 1, core=(k <= 2))
+    return out
+
+
+PROPS["C12"] = Prop(
+    "C12",
+    modules=[Module("composition", "verif_c12", "harness/composition/verif_c12.rs", parent="oligocgr")],
+    functions=["composition::oligocgr::OligoCgrComputer::vectorise_one (private)", "composition::oligocgr::OligoCgrComputer::seq_to_kmer (private)",
+               "composition::oligocgr::OligoCgrComputer::cgr_maps (private)", "kmer::numeric_to_kmer", "kmer::kmer::KmerGenerator::{new,next}"],
+    assumptions=COMMON_ASSUME + [HASHMAP_NOTE, BIO_NOTE,
+                                 "the struct is built directly (OligoCgrComputer::new calls rayon::current_num_threads); its kmers vector is built as `new` builds it "
+                                 "(numeric_to_kmer over the index-to-k-mer table) from the tables of a native run of the real kmer_pos_maps(k)"],
+    outside=["row order / threads / batch limit of vectorise() (I/O + rayon)", "k > 2 (quick) / k > 3 (thorough)", "records longer than k+3",
+             "the wiring inside OligoCgrComputer::new"],
+    instances=c12_instances,
+    shims=["hashmap", "bio"],
+    generate=gen_tables,
+    roles=[
+        ("of a record fails", "record-rejected"),
+        ("one triple per", "row-length"),
+        ("chaos-game end point", "wrong-position"),
+        ("normalised oligo frequency", "wrong-frequency"),
+        ("raw oligo count", "wrong-frequency"),
+        ("differs between rows", "position-depends-on-record"),
+    ],
+)
+
+
+# ---------------------------------------------------------------------------
+# C08
+def c08_instances(tier, seed):
+    out = []
+
+    def inst(k, n, e, bins, norm, core=True, timeout=1800):
+        out.append(Inst("c08_%s_k%d_n%d_e%d_b%d" % ("norm" if norm else "raw", k, n, e, bins), "verif_c08", "coverage",
+                        "c08_body::<%d, %d, %d, %d, %s>()" % (k, n, e, bins, "true" if norm else "false"), max(n + 2, e + 2, bins + 2),
+                        {"clause": "per-record histogram for any counts table (%s)" % ("normalised" if norm else "raw"), "k": k, "max_len": n,
+                         "len": "symbolic 0..=%d" % n, "table_entries": e, "multiplicities": "symbolic u32", "bin_size": "symbolic 1..=2^32",
+                         "bin_count": "symbolic 1..=%d" % bins, "bin": "symbolic"}, core=core, timeout=timeout, cost=60.0 * n * e))
+
+    if tier == "quick":
+        inst(2, 4, 2, 3, False)
+        inst(2, 4, 2, 3, True)
+        inst(3, 5, 2, 4, False)
+    else:
+        for k, n in ((2, 4), (2, 5), (3, 5)):
+            inst(k, n, 3, 4, False, core=(n <= 4))
+            inst(k, n, 3, 4, True, core=(n <= 4))
+        inst(31, 32, 2, 4, False, core=False, timeout=3600)
+        inst(31, 32, 2, 4, True, core=False, timeout=3600)
+    return out
+
+
+PROPS["C08"] = Prop(
+    "C08",
+    modules=[Module("coverage", "verif_c08", "harness/coverage/verif_c08.rs")],
+    functions=["coverage::CovComputer::vectorise_one (private)", "kmer::kmer::KmerGenerator::{new,next}", "f64 binning (count as f64 / bin_size as f64).floor()"],
+    assumptions=COMMON_ASSUME + [HASHMAP_NOTE, BIO_NOTE,
+                                 "the counts table is an arbitrary map with <= table_entries distinct keys and arbitrary u32 multiplicities (the table the counter would produce is one of them)",
+                                 "the struct is built directly (CovComputer::new calls rayon::current_num_threads)"],
+    outside=["build_table (counting + merge + temp-file round trip)", "row order, batching and flush conditions of compute_coverages", "thread-count independence",
+             "textual formatting of the row", "records longer than max_len, tables with more entries"],
+    instances=c08_instances,
+    shims=["hashmap", "bio"],
+    roles=[
+        ("bin-count entries", "row-length"),
+        ("normalised entry", "wrong-fraction"),
+        ("entry is not the number", "wrong-bin-count"),
+        ("all-zero row", "empty-record-row"),
     ],
 )
